@@ -51,7 +51,7 @@ def header_layout(repo):
     return facts.pop()
 
 
-def _len_buf_bound(c: str) -> Optional[tuple]:
+def _len_buf_bound(c: str, buf: Optional[str] = None) -> Optional[tuple]:
     """If the condition is a comparison of len(buffer) with an expression E, return
     (E text, slack) meaning the path guarantees len(buffer) >= E + slack."""
     pol, e = parse_cond(c)
@@ -61,7 +61,7 @@ def _len_buf_bound(c: str) -> Optional[tuple]:
 
     def is_len(x):
         return isinstance(x, ast.Call) and isinstance(x.func, ast.Name) and x.func.id == 'len' \
-            and x.args and ast.unparse(x.args[0]) == BUF
+            and x.args and ast.unparse(x.args[0]) == (buf or BUF)
     if is_len(l):
         other, flip = r, False
     elif is_len(r):
@@ -83,7 +83,7 @@ def _len_buf_bound(c: str) -> Optional[tuple]:
     return None
 
 
-def _parse_full_length(term: str, repo=None):
+def _parse_full_length(term: str, repo=None, buf: Optional[str] = None):
     """X = <big-endian unsigned read of buf[a:b]> + k  ->  (fmt, a, b, k) or None.  Understood readers:
     struct.unpack(fmt, buf[a:b])[0], S.unpack(buf[a:b])[0], struct.unpack_from(fmt, buf, a)[0], S.unpack_from(buf, a)[0]
     (S a struct.Struct constant), int.from_bytes(buf[a:b], 'big')."""
@@ -112,7 +112,7 @@ def _parse_full_length(term: str, repo=None):
         return None
 
     def buf_slice(sl):
-        if not (isinstance(sl, ast.Subscript) and ast.unparse(sl.value) == BUF and isinstance(sl.slice, ast.Slice)):
+        if not (isinstance(sl, ast.Subscript) and ast.unparse(sl.value) == (buf or BUF) and isinstance(sl.slice, ast.Slice)):
             return None
         lo = sl.slice.lower.value if isinstance(sl.slice.lower, ast.Constant) else (0 if sl.slice.lower is None else None)
         hi = sl.slice.upper.value if isinstance(sl.slice.upper, ast.Constant) else None
@@ -170,7 +170,7 @@ def _parse_full_length(term: str, repo=None):
         if bs is None or bs[0] is None or bs[1] is None or bs[1] - bs[0] != total:
             return (ffmt, bs[0], bs[1], k) if bs is not None and len(vals) == 1 else None
         return ffmt, bs[0] + fo, bs[0] + fo + fw, k
-    if meth == 'unpack_from' and args and ast.unparse(args[0]) == BUF:
+    if meth == 'unpack_from' and args and ast.unparse(args[0]) == (buf or BUF):
         off = args[1].value if len(args) > 1 and isinstance(args[1], ast.Constant) else 0 if len(args) == 1 else None
         if off is None:
             return None
@@ -293,12 +293,56 @@ def run(repo, rep):
         rep.bad('C03.B1', 'dulprovider:DULServiceProvider.__init__:raw_pdu-writer:init', pm.cls.loc(), 'buffer never initialised')
     # received bytes flow nowhere else: the recv term may only occur in the buffer append and in tests
     leaks = set()
+
+    def whole_pdu_shortcut(conds, rt) -> bool:
+        """do the path conditions say that nothing is buffered and that the bytes just received are exactly one PDU
+        (header complete, 6 + big-endian length at [2:6] == their length)?  Then decoding them directly is what appending
+        them to the empty buffer and framing would do, and nothing is left over."""
+        empty = any(c in ('-' + BUF, '+not ' + BUF, '+len(%s) == 0' % BUF, '+0 == len(%s)' % BUF, '-len(%s)' % BUF) for c in conds)
+        if not empty:
+            return False
+        whole = False
+        for c in conds:
+            pol, e = parse_cond(c)
+            if e is None or not isinstance(e, ast.Compare) or len(e.ops) != 1:
+                continue
+            op = e.ops[0]
+            if not ((isinstance(op, ast.Eq) and pol) or (isinstance(op, ast.NotEq) and pol is False)):
+                continue
+            for a_, b_ in ((e.left, e.comparators[0]), (e.comparators[0], e.left)):
+                if ast.unparse(a_) == 'len(%s)' % rt:
+                    parsed = _parse_full_length(ast.unparse(b_), repo, buf=rt)
+                    if parsed is not None and parsed[0].replace(' ', '') in ('>L', '>I', '!L', '!I') \
+                            and (parsed[1], parsed[2], parsed[3]) == (off, off + size, hdr):
+                        whole = True
+        bounds = [b for b in (_len_buf_bound(c, rt) for c in conds) if b]
+
+        def as_int0(t):
+            try:
+                v = repo.try_fold(ast.parse(t, mode='eval').body, repo.module('dulprovider'), repo.cls('dulprovider', 'DULServiceProvider'))
+            except SyntaxError:
+                return None
+            return v if isinstance(v, int) and not isinstance(v, bool) else None
+        header_ok = any(as_int0(t) is not None and as_int0(t) + sl >= hdr for t, sl in bounds)
+        return whole and header_ok
+    def infeasible(conds, rt) -> bool:
+        """non-empty and of length 0 at once: bytes are truthy exactly when their length is not 0"""
+        truthy = ('+' + rt) in conds
+        falsy = ('-' + rt) in conds
+        zero = any(c in conds for c in ('+0 == len(%s)' % rt, '+len(%s) == 0' % rt, '-len(%s)' % rt, '-len(%s) != 0' % rt))
+        nonzero = any(c in conds for c in ('-0 == len(%s)' % rt, '-len(%s) == 0' % rt, '+len(%s)' % rt, '+len(%s) != 0' % rt))
+        return (truthy and zero) or (falsy and nonzero)
     for s, how in finals:
         for ev in s.trail:
             if ev.kind in ('store', 'append', 'indicate', 'decode') and not (ev.kind == 'store' and ev.callee == BUF):
                 for a in ev.args:
                     for rt in recv_terms:
                         if rt in a and BUF not in a.replace(rt, ''):
+                            if infeasible(ev.conds, rt):
+                                continue
+                            if whole_pdu_shortcut(ev.conds, rt):
+                                rep.notes['whole_pdu_shortcut'] = 'recv() bytes decoded directly on a path where the buffer is empty and they are exactly one PDU'
+                                continue
                             leaks.add('%s at line %d receives recv() bytes directly' % (ev.kind, ev.line))
     rep.check(not leaks, 'C03.B1', 'dulprovider:DULServiceProvider._check_network:recv-flow', pm.method('_check_network').loc(),
               'bytes returned by recv() flow only into the buffer append', '; '.join(sorted(leaks)))
